@@ -719,6 +719,9 @@ func (e *SpecEnv) call(n *CallE) Val {
 		return Term{app("trunc", argT(0).S), intT}
 	case "roundhalf":
 		return Term{app("roundhalf", argT(0).S), intT}
+	case "listed": // listed(s, e): e is one of the elements the string s was joined from (strings.Join model)
+		x.reg.declFun("str_listed", "(Int Int) Bool")
+		return Term{app("str_listed", argT(0).S, argT(1).S), boolT}
 	case "fresh": // object allocated after function entry
 		r := e.evalRef(n.Args[0])
 		return Term{and(app(">=", r, e.entryAlloc), app("<", r, e.st.allocCtr)), boolT}
